@@ -36,7 +36,7 @@ std::string mb::nodeTypeName(const mb::Model& M, int bi) {
     return vdemangle(typeid(n).name());
 }
 
-// Calibration (unchanged tree, all three value sets, levels A,G,B,C): worst algebraic residual 4e-15 (see notes/C04.md).
+// Calibration (unchanged tree, all three value sets, levels G,A,B,C): worst algebraic residual 1.3e-15, worst FD residual 6.4e-10 (notes/C04.md).
 static const double TOL = 1e-11;
 // finite-difference oracle: Richardson pair must agree to FD_AGREE (else skipped and counted); bound FD_TOL
 static const double FD_AGREE = 1e-8, FD_TOL = 1e-6;
